@@ -114,7 +114,8 @@ func execST(args []string) string {
 
 // hyp: validates the hypothesis of C13_ascii against the real unicode tables: two ASCII
 // bytes are in one SimpleFold orbit iff their lower-case forms are equal, and the hypothesis
-// of C13_total: no orbit of any rune up to U+10FFFF has more than 8 members.
+// of C13_total: no orbit of any rune up to U+10FFFF has more than 8 members; and those of
+// C13_fold_iff: orbit membership is symmetric and U+FFFD folds only to itself.
 func execHyp(args []string) string {
 	lower := func(c rune) rune {
 		if 'A' <= c && c <= 'Z' {
@@ -139,16 +140,37 @@ func execHyp(args []string) string {
 			}
 		}
 	}
+	// inOrbit is the closure of ContainsFold, as the model's in_orbit
+	inOrbit := func(first, r rune) bool {
+		for f := first; ; {
+			if r == f {
+				return true
+			}
+			if f = unicode.SimpleFold(f); f == first {
+				return false
+			}
+		}
+	}
 	maxOrbit := 0
-	for r := rune(0); r <= unicode.MaxRune; r++ {
+	for r := rune(-2); r <= unicode.MaxRune+2; r++ {
 		n := 1
 		for f := unicode.SimpleFold(r); f != r; f = unicode.SimpleFold(f) {
 			n++
 			if n > 8 {
 				return "orbit-too-long:" + I(int(r))
 			}
+			// hypotheses of C13_fold_iff: membership is symmetric, U+FFFD is alone in its orbit
+			if !inOrbit(f, r) {
+				return "orbit-not-symmetric:" + I(int(r)) + "," + I(int(f))
+			}
+			if f == utf8.RuneError || r == utf8.RuneError {
+				return "orbit-with-U+FFFD:" + I(int(r))
+			}
 		}
 		maxOrbit = max(maxOrbit, n)
+	}
+	if unicode.SimpleFold(utf8.RuneError) != utf8.RuneError {
+		return "U+FFFD-folds"
 	}
 	return "ok"
 }
